@@ -271,7 +271,11 @@ class World:
                         os.path.relpath(os.path.join(self.run_dir, d.rel),
                                         os.path.join(self.run_dir, parent.rel))
                 elif kind == 'lu':
-                    if self.has_up:
+                    # (with a runN link next to the run dir an upward link
+                    # gives ** two routes per level: glob, which follows
+                    # symlinks, then needs exponential time - not generated)
+                    if self.has_up or (
+                            case['levels'] == 2 and case['extras'] & 1):
                         continue
                     self.has_up = True
                     tgt = os.path.dirname(self.run_dir)
